@@ -2,6 +2,7 @@ import Driver.Common
 import Rpki.Model.Chain
 import Rpki.Model.AsDer
 import Rpki.Model.IpDer
+import Rpki.Model.ResText
 namespace Driver.C03
 open Driver Rpki.Chain
 
@@ -60,6 +61,19 @@ def famTag (op : String) : Blk → String := if op.startsWith "as" then asTag el
 
 def handle (toks : List String) (impl : String) : Verdict :=
   match toks with
+  | ["ip-fmt", fam, a] =>
+    match parseBlocks a with
+    | none => badOp "blocks"
+    | some bs =>
+      let c := fromIter M128 bs
+      let text := Rpki.ResText.fmtIp (fam = "4") (c.map Rpki.ResText.tagged)
+      { model := some s!"{showChain ipTag c} {toHex (text.map UInt8.ofNat)}" }
+  | ["as-fmt", a] =>
+    match parseBlocks a with
+    | none => badOp "blocks"
+    | some bs =>
+      let c := fromIter M32 bs
+      { model := some s!"{showChain asTag c} {toHex ((Rpki.ResText.fmtAs c).map UInt8.ofNat)}" }
   | ["ip-der", fam, h] =>
     match (parseHex h).map (·.map UInt8.toNat) with
     | none => badOp "hex"
